@@ -75,9 +75,7 @@ func NewFloatFromString(typ *types.FloatType, s string) (*Float, error) {
 			// > The 80-bit format used by x86 is represented as 0xK followed by 20
 			// > hexadecimal digits.
 			hex := strings.TrimPrefix(s, "0xK")
-			const hexLen = 8
-			part1 := hex[:hexLen/2]
-			part2 := hex[hexLen/2:]
+			part1, part2 := hexWords(hex, 4, false)
 			se, err := strconv.ParseUint(part1, 16, 16)
 			if err != nil {
 				return nil, errors.WithStack(err)
@@ -96,13 +94,7 @@ func NewFloatFromString(typ *types.FloatType, s string) (*Float, error) {
 			// > The IEEE 128-bit format is represented by 0xL followed by 32
 			// > hexadecimal digits.
 			hex := strings.TrimPrefix(s, "0xL")
-			const maxHexLen = 32
-			if len(hex) < maxHexLen {
-				// pad with leading zeroes (e.g. for case like `0xL01`)
-				hex = strings.Repeat("0", maxHexLen-len(hex)) + hex
-			}
-			part1 := hex[:maxHexLen/2]
-			part2 := hex[maxHexLen/2:]
+			part1, part2 := hexWords(hex, 16, true)
 			a, err := strconv.ParseUint(part1, 16, 64)
 			if err != nil {
 				return nil, errors.WithStack(err)
@@ -121,9 +113,7 @@ func NewFloatFromString(typ *types.FloatType, s string) (*Float, error) {
 			// > The 128-bit format used by PowerPC (two adjacent doubles) is
 			// > represented by 0xM followed by 32 hexadecimal digits.
 			hex := strings.TrimPrefix(s, "0xM")
-			const maxHexLen = 32
-			part1 := hex[:maxHexLen/2]
-			part2 := hex[maxHexLen/2:]
+			part1, part2 := hexWords(hex, 16, true)
 			a, err := strconv.ParseUint(part1, 16, 64)
 			if err != nil {
 				return nil, errors.WithStack(err)
@@ -296,6 +286,29 @@ func parseDecimal(s string, prec uint) (*big.Float, error) {
 	x := big.NewFloat(f)
 	x.SetPrec(prec)
 	return x, nil
+}
+
+// hexWords splits the digits of a hexadecimal floating-point literal into its
+// two words the way the LLVM lexer does, so that a spelling with fewer digits
+// than the full form is read as LLVM reads it (e.g. `0xM01`, `0xK3FFF8`).
+//
+// 0xK (n = 4): the first (at most) four digits are the sign and exponent, the
+// rest is the significand. 0xL and 0xM (n = 16, shortToSecond): fewer than 16
+// digits belong to the second word; otherwise the first 16 digits are the
+// first word and the rest is the second word. A word without digits is zero.
+func hexWords(hex string, n int, shortToSecond bool) (part1, part2 string) {
+	switch {
+	case len(hex) < n && shortToSecond:
+		part1, part2 = "0", hex
+	case len(hex) < n:
+		part1, part2 = hex, "0"
+	default:
+		part1, part2 = hex[:n], hex[n:]
+	}
+	if part2 == "" {
+		part2 = "0"
+	}
+	return part1, part2
 }
 
 // String returns the LLVM syntax representation of the constant as a type-value
